@@ -1,6 +1,7 @@
 // C07: memory-pressure ejection decides traces rather than discarding them (DESIGN §6 C07).
 //
-// Three exhaustive parts, all on the real code:
+// Four exhaustive parts, all on the real code (part R — consecutive overage rounds on one worker, every request consumed
+// by the worker's real collect() loop — is described in rounds.go):
 //
 //	(B) buffer product — every buffer of 1..4 traces × data size class {small, medium, large} × age class
 //	    {fresh, ½ TraceTimeout, > TraceTimeout} (× shape of the first trace: one child / one root / two spans of different
@@ -56,7 +57,7 @@ var (
 	// G is the frozen reading of the (shimmed) wall clock used by package types.
 	G     = fx.T0.Add(1000 * time.Hour)
 	ages  = []time.Duration{0, timeout / 2, timeout + timeout/4}
-	pads  = []int{16, 160, 1600}
+	pads  = []int{16, 160, 1600, hugePad} // class 3 (huge) is only used by part R (rounds.go)
 	tconf = config.TracesConfig{SendDelay: config.Duration(time.Second), TraceTimeout: config.Duration(timeout), SendTicker: config.Duration(100 * time.Millisecond)}
 )
 
@@ -173,7 +174,9 @@ func failf(sig, format string, a ...any) *failure {
 // ejectAndCheck runs the real sendTracesEarly(bytes) on worker w of f (handler mode) and evaluates the whole oracle of
 // one ejection. ts = the model of the traces buffered on worker w (in any order); others = model traces on other workers.
 // allowMemo: estimates memoised by an earlier ejection are admissible alternatives (history part).
-func ejectAndCheck(f *fx.Fixture, w int, ts []*mtrace, others []*mtrace, arrived map[string]time.Time, bytes int, allowMemo bool, stats func(string)) (uint, *failure) {
+// via: how the request reaches the worker — nil = the handler sendTracesEarly(bytes) called directly, otherwise e.g.
+// (*fx.Fixture).EjectViaLoop (a sendEarly{bytes} request consumed by the worker's real collect() loop, part R).
+func ejectAndCheck(f *fx.Fixture, w int, ts []*mtrace, others []*mtrace, arrived map[string]time.Time, bytes int, allowMemo bool, stats func(string), via func(*fx.Fixture, int, int)) (uint, *failure) {
 	now := f.Now()
 	restamp(f, w, arrived)
 	before := map[string]fx.TraceView{}
@@ -201,7 +204,11 @@ func ejectAndCheck(f *fx.Fixture, w int, ts []*mtrace, others []*mtrace, arrived
 	q0 := len(f.Outgoing())
 	tx0 := f.Tx.Len()
 
-	f.Eject(w, bytes)
+	if via != nil {
+		via(f, w, bytes)
+	} else {
+		f.Eject(w, bytes)
+	}
 
 	after := map[string]fx.TraceView{}
 	for _, v := range f.BufferedAll() {
@@ -593,7 +600,7 @@ func (ps *productScenario) run(r *ev.Run, note func(string)) {
 			replay := map[string]any{"scenario": ps.name, "traces": ps.ids[:ps.n], "specs(size,age,shape)": specs, "bytes": bytes}
 			b := build(ps.workers, ps.ids, ps.keep, specs, ps.equalPads)
 			f := b.f
-			e, fl := ejectAndCheck(f, 0, b.ts, b.others, b.arrived, bytes, false, note)
+			e, fl := ejectAndCheck(f, 0, b.ts, b.others, b.arrived, bytes, false, note, nil)
 			if fl != nil {
 				report(fl, replay)
 				f.Close()
@@ -788,7 +795,7 @@ func (s *hscenario) exec(r *ev.Run, h []event, note func(string)) (string, strin
 				if strings.Contains(k, "memoised") {
 					memoExample(h[:step+1])
 				}
-			})
+			}, nil)
 			if fl != nil {
 				fl.what = fmt.Sprintf("step %d: ", step+1) + fl.what
 				return fail(fl)
@@ -1093,6 +1100,29 @@ func main() {
 			NoMergeDepth: 4})
 		fmt.Printf("  %-34s depth %d/%d states %d transitions %d  %.1fs\n", hs.name, st.DepthCompleted, hs.depth, st.States, st.Transitions, time.Since(t).Seconds())
 		r.Set("histories_bounds", map[string]any{"depth_bound": hs.depth, "depth_completed": st.DepthCompleted, "traces": hs.ids, "size_classes": hs.sizes, "max_spans_per_trace": hs.maxSpans, "advance": (timeout / 4).String(), "max_advances": hs.maxAdv})
+	}
+	// ---- (R)
+	if only == "" || only == "R" {
+		all4 := []int{0, 1, 2, 3}
+		rss := []*roundsScenario{
+			{name: "loop-rounds/3-traces×3-rounds", ids: ids1, keep: keep1, n: 3, rounds: 3, sizes: all4, ageAll: ev.Pick(r, false, true)},
+			{name: fmt.Sprintf("loop-rounds/4-traces×%d-rounds", ev.Pick(r, 2, 3)), ids: ids1, keep: keep1, n: 4, rounds: ev.Pick(r, 2, 3), sizes: all4},
+			{name: "loop-rounds/started-collector/3-traces×2-rounds", ids: ids1, keep: keep1, n: 3, rounds: 2, sizes: ev.Pick(r, []int{0, 3}, all4), loop: true},
+		}
+		for _, rs := range rss {
+			if sub := os.Getenv("VERIF_C07_R"); sub != "" && !strings.Contains(rs.name, sub) { // debugging aid: one scenario of part R
+				continue
+			}
+			rs.run(r, note)
+		}
+		r.Set("loop_rounds_bounds", map[string]any{"size_classes(pad bytes)": pads, "age_classes": []string{"0", (timeout / 2).String()}, "gap_between_rounds": roundGap.String(),
+			"shares_per_round": "0 and P-1, P, P+1 for every prefix sum P of the heaviest-first order of the traces buffered at that round",
+			"scenarios": func() (o []string) {
+				for _, rs := range rss {
+					o = append(o, rs.name)
+				}
+				return
+			}()})
 	}
 	// ---- (A)
 	nsplit := 0
